@@ -248,6 +248,7 @@ type Clause struct {
 }
 
 type ModClause struct {
+	Heap    string
 	Expr    *SExpr
 	Durable bool
 	Text    string
@@ -274,6 +275,7 @@ type Contract struct {
 	LoopInv   map[int][]*Clause
 	LoopDec   map[int]*Clause
 	LoopMod   map[int][]*ModClause
+	LoopAfter map[int][]*Clause
 	Asserts   []*Clause
 	Observes  []*Observe
 	Fresh     map[string]bool
@@ -316,7 +318,16 @@ type Pred struct {
 	Body   *SExpr
 }
 
+// MethodSetCheck: method Name of type Recv (pointer receiver method set) must be declared on
+// the type DeclaredOn itself (not promoted from an embedded field).
+type MethodSetCheck struct {
+	Pkg, Recv, Name, DeclaredOn string
+	Props                       []string
+	Where                       string
+}
+
 type SpecDB struct {
+	MethodSets []*MethodSetCheck
 	Contracts map[string]*Contract
 	Funcs     map[string]*SpecFunc
 	Records   map[string]*Record
@@ -331,7 +342,7 @@ func NewSpecDB() *SpecDB {
 }
 
 var clauseKW = map[string]bool{"fresh": true, "requires": true, "ensures": true, "modifies": true, "crash_inv": true, "loop": true, "observe": true, "param": true, "trusted": true, "nopanic": true, "pure": true, "noinline": true, "inline": true, "property": true, "assert": true}
-var topKW = map[string]bool{"func": true, "package": true, "record": true, "spec": true, "model": true, "pred": true, "axiom": true}
+var topKW = map[string]bool{"methodset": true, "func": true, "package": true, "record": true, "spec": true, "model": true, "pred": true, "axiom": true}
 
 // LoadFile parses one contract file. pkgPath is the import path the file's functions live in
 // (overridden by `//@ package` lines).
@@ -453,6 +464,19 @@ func (db *SpecDB) LoadFile(file, pkgPath string) error {
 			}
 			db.Preds[name] = &Pred{Name: name, Params: args, Body: body}
 			cur = nil
+		case "methodset":
+			// methodset *T Method declared-on T property Cxx ...
+			if len(fs) < 5 || fs[3] != "declared-on" {
+				return fail(fmt.Errorf("methodset: want `methodset *T Method declared-on T property Cxx`"))
+			}
+			mc := &MethodSetCheck{Pkg: pkgPath, Recv: strings.TrimPrefix(fs[1], "*"), Name: fs[2], DeclaredOn: fs[4], Where: where}
+			for i := 5; i < len(fs); i++ {
+				if fs[i] != "property" {
+					mc.Props = append(mc.Props, fs[i])
+				}
+			}
+			db.MethodSets = append(db.MethodSets, mc)
+			cur = nil
 		case "axiom":
 			cl, err := parseClause(rest, where)
 			if err != nil {
@@ -525,7 +549,7 @@ func stripTypeArgs(s string) string {
 // parseFuncHeader parses `(recv *T) name(params) (results)` or `name(params) (results)` or
 // `T.field(params) (results)` (function-typed struct field).
 func parseFuncHeader(s, pkgPath string) (*Contract, error) {
-	c := &Contract{Pkg: pkgPath, LoopInv: map[int][]*Clause{}, LoopDec: map[int]*Clause{}, LoopMod: map[int][]*ModClause{}, SubParams: map[string]*Contract{}}
+	c := &Contract{Pkg: pkgPath, LoopInv: map[int][]*Clause{}, LoopDec: map[int]*Clause{}, LoopMod: map[int][]*ModClause{}, LoopAfter: map[int][]*Clause{}, SubParams: map[string]*Contract{}}
 	s = strings.TrimSpace(s)
 	if strings.HasPrefix(s, "(") {
 		j := strings.Index(s, ")")
@@ -617,6 +641,13 @@ func parseMods(rest string) ([]*ModClause, error) {
 			m.Durable = true
 			p = strings.TrimSpace(p[len("durable "):])
 		}
+		if strings.HasPrefix(p, "heap ") {
+			// a whole heap array by name, e.g. heap "types.SignedHeader.signatureProvider":
+			// that field of any object may change
+			m.Heap = strings.Trim(strings.TrimSpace(p[len("heap "):]), "\"")
+			out = append(out, m)
+			continue
+		}
 		e, err := ParseSpecExpr(p)
 		if err != nil {
 			return nil, err
@@ -693,6 +724,16 @@ func parseClauseInto(c *Contract, kw, rest, where string) error {
 				cl.Label = fmt.Sprintf("inv%d", len(c.LoopInv[n])+1)
 			}
 			c.LoopInv[n] = append(c.LoopInv[n], cl)
+		case "after":
+			// loop N after [label] expr : checked, then assumed, on leaving the loop
+			cl, err := parseClause(body, where)
+			if err != nil {
+				return err
+			}
+			if cl.Label == "" {
+				cl.Label = fmt.Sprintf("after%d", len(c.LoopAfter[n])+1)
+			}
+			c.LoopAfter[n] = append(c.LoopAfter[n], cl)
 		case "decreases":
 			cl, err := parseClause(body, where)
 			if err != nil {
@@ -737,7 +778,7 @@ func parseClauseInto(c *Contract, kw, rest, where string) error {
 		}
 		sub := c.SubParams[name]
 		if sub == nil {
-			sub = &Contract{Key: c.Key + "$" + name, Pkg: c.Pkg, FuncName: name, LoopInv: map[int][]*Clause{}, LoopDec: map[int]*Clause{}, LoopMod: map[int][]*ModClause{}, SubParams: map[string]*Contract{}}
+			sub = &Contract{Key: c.Key + "$" + name, Pkg: c.Pkg, FuncName: name, LoopInv: map[int][]*Clause{}, LoopDec: map[int]*Clause{}, LoopMod: map[int][]*ModClause{}, LoopAfter: map[int][]*Clause{}, SubParams: map[string]*Contract{}}
 			c.SubParams[name] = sub
 		}
 		if hasParens {
